@@ -15,10 +15,10 @@ EXTENDS Endpoints, Json
 CONSTANTS TraceFile, Judge03, Judge14, Judge15
 Traces == ndJsonDeserialize(TraceFile)
 VARIABLES tr, l, srv, known, marked, removedAt
-tvars == <<tr, l, srv, known, marked, removedAt, servers, healthy, cursor, inflight, probed, hist>>
+tvars == <<tr, l, srv, known, marked, removedAt, servers, healthy, cursor, inflight, probed, hist, matched>>
 Stubs == 0..3
 TInit == /\ tr \in DOMAIN Traces /\ l = 1 /\ srv = [s \in Stubs |-> "gone"] /\ known = [s \in Stubs |-> "unready"] /\ marked = TRUE /\ removedAt = [s \in Stubs |-> 0]
-         /\ servers = [e \in Eps |-> "gone"] /\ healthy = [e \in Eps |-> FALSE] /\ cursor = 0 /\ inflight = {} /\ probed = {} /\ hist = <<>>
+         /\ servers = [e \in Eps |-> "gone"] /\ healthy = [e \in Eps |-> FALSE] /\ cursor = 0 /\ inflight = {} /\ probed = {} /\ hist = <<>> /\ matched = <<>>
 T == Traces[tr]
 Ev == T.events[l]
 Rs(s) == {s[i] : i \in DOMAIN s}
@@ -44,7 +44,7 @@ TNext == /\ l <= Len(T.events) /\ OK /\ l' = l + 1 /\ tr' = tr
                        [] Ev.k = "ready" -> [s \in Stubs |-> IF srv[s] = "gone" THEN "unready" ELSE IF s \in Rs(Ev.ready) THEN "ready" ELSE "unready"]
                        [] OTHER -> known
          /\ marked' = IF Ev.k \in {"applied", "deleted", "unmark"} THEN FALSE ELSE IF Ev.k = "mark" THEN TRUE ELSE marked
-         /\ UNCHANGED <<removedAt, servers, healthy, cursor, inflight, probed, hist>>
+         /\ UNCHANGED <<removedAt, servers, healthy, cursor, inflight, probed, hist, matched>>
 TSpec == TInit /\ [][TNext]_tvars
 Judge == (l <= Len(T.events) /\ ~OK) => PrintT(<<"REJECT", T.id, l, Ev.k>>)
 =============================================================================
